@@ -20,7 +20,7 @@ Decided on all paths of the code generator (i.e. for every template the compiler
     remembered in objects only behind a comparison of the instructions' identity (c05_jumps).
 """
 from .. import cfg, flow, errflow, query, arms
-from ..brackets import Analysis, State, GEN, INSTR, PEND, COUNTERS
+from ..brackets import Analysis, State, GEN, INSTR, PEND, COUNTERS, balanced_in_context
 from ..facts import op_place, norm_path, const_int
 
 COMPILE_STMT = GEN + "::compile_stmt"
@@ -100,7 +100,9 @@ def run(ctx):
         an = Analysis(prog, report)
         gens = sorted(k for k, f in prog.fns.items() if k.startswith(GEN + "::") and f.kind != "closure")
         ctx.floor("C05.B1 CodeGenerator methods" + tag, len(gens), 25)
-        for g in gens:
+        # public entries first: a private piece of a construct is then summarised exactly (from its caller) and is
+        # never the function a recursion is assumed neutral at
+        for g in sorted(gens, key=lambda k: (not prog.fn(k).is_pub, k)):
             s = an.summary(g)
         # B1: every public entry that compiles a whole construct is neutral
         n_neutral = 0
@@ -109,8 +111,8 @@ def run(ctx):
             s = an.summaries[g]
             if nm.startswith("compile_") or nm in ("finish",):
                 n_neutral += 1
-                ctx.ob("C05.B1.construct-is-neutral", tag + g, s.key() == State().key(),
-                       "%s leaves %r" % (nm, s), prog.fn(g).loc)
+                ok_, how_ = balanced_in_context(an, prog, g, lambda st: st.key() == State().key())
+                ctx.ob("C05.B1.construct-is-neutral", tag + g, ok_, "%s %s" % (nm, how_), prog.fn(g).loc)
         ctx.floor("C05.B1 compile_* functions" + tag, n_neutral, 12)
         ctx.count("C05.B1 scope/instruction emission sites" + tag, an.instr_sites)
         ctx.count("C05.B1 join points checked" + tag, sum(len(v) for v in an.states.values()))
